@@ -4,11 +4,14 @@ import (
 	"archive/zip"
 	"context"
 	"fmt"
+	"github.com/itchio/lake/pools"
+	"github.com/itchio/lake/tlc"
 	"io"
 	"os"
 	"path/filepath"
 	"runtime"
 	"strings"
+	"syscall"
 	"time"
 
 	"github.com/itchio/headway/state"
@@ -140,6 +143,23 @@ func c16Cases(tier string, seed uint64, flavor string) []lib.Case {
 		}
 	}
 	cancelCases("files3", []string{"none", "first", "last", "all"}, 4, 1)
+	// the target is one regular file, cut at block boundaries
+	for _, dm := range []string{"cut-2blocks", "cut-1block", "cut-0", "cut-mid", "intact"} {
+		for _, cons := range []string{"failfast", "failfast", "wounds-good", "printer"} {
+			add(c16Spec{Build: "singlefile", Damage: dm, Consumer: cons, Cancel: "none", Sched: "none", SchedSeed: lib.Mix(seed, uint64(i)), Procs: 4})
+			i++
+		}
+	}
+	// the only damage is a re-spelled symlink destination
+	for k := 0; k < 6; k++ {
+		add(c16Spec{Build: "files3", Damage: "respell", Consumer: "failfast", Cancel: "none", Sched: "none", SchedSeed: lib.Mix(seed, uint64(i)), Procs: 4})
+		i++
+	}
+	// a named pipe in place of a file
+	for _, cons := range []string{"failfast", "wounds-good", "printer", "heal-good"} {
+		add(c16Spec{Build: "files3", Damage: "fifo", Consumer: cons, Cancel: "none", Sched: "none", SchedSeed: lib.Mix(seed, uint64(i)), Procs: 4})
+		i++
+	}
 	// the file worker fails on the only file of a build whose content is wrong as well: no clean verdict
 	for _, cons := range []string{"failfast", "wounds-good", "printer"} {
 		for k := 0; k < 6; k++ {
@@ -206,9 +226,70 @@ func corruptZipEntry(src, dst string, n int) error {
 	return zw.Close()
 }
 
+// c16SingleFile: the validation target is ONE regular file (container from tlc.WalkAny on the file), cut at a block
+// boundary / emptied / intact; fail-fast must not call a cut file valid, and must return.
+func c16SingleFile(c lib.Case, s c16Spec, env *lib.Env) lib.Result {
+	res := lib.Result{NonTrivial: true}
+	r := lib.NewRng(lib.Mix(s.Seed, 161))
+	data := lib.RandomBytes(3*lib.BS+int64([]int{0, 0, 777}[r.Intn(3)]), r.Uint64())
+	path := filepath.Join(env.Scratch, "game.bin")
+	os.WriteFile(path, data, 0o644)
+	cont, err := tlc.WalkAny(path, tlc.WalkOpts{})
+	if err != nil {
+		res.Inconclusive("WalkAny(file): " + err.Error())
+		return res
+	}
+	pool, err := pools.New(cont, path)
+	if err != nil {
+		res.Inconclusive(err.Error())
+		return res
+	}
+	hashes, err := pwr.ComputeSignature(context.Background(), cont, pool, lib.Quiet())
+	pool.Close()
+	if err != nil {
+		res.Inconclusive("sign: " + err.Error())
+		return res
+	}
+	sig := &pwr.SignatureInfo{Container: cont, Hashes: hashes}
+	cut := map[string]int64{"cut-2blocks": 2 * lib.BS, "cut-1block": lib.BS, "cut-0": 0, "cut-mid": lib.BS + 5, "intact": int64(len(data))}[s.Damage]
+	os.Truncate(path, cut)
+	deviates := cut != int64(len(data))
+	desc := fmt.Sprintf("single-file target of %d bytes, now %d bytes (%s), consumer=%s", len(data), cut, s.Damage, s.Consumer)
+	vctx := &pwr.ValidatorContext{Consumer: lib.Quiet(), FailFast: s.Consumer == "failfast"}
+	if s.Consumer == "wounds-good" {
+		vctx.WoundsPath = filepath.Join(env.Scratch, "w.pww")
+	}
+	var verr error
+	var panicked bool
+	var stack string
+	v := lib.RunWithQuiescence(func() {
+		verr, panicked, stack = lib.Guard(func() error { return vctx.Validate(context.Background(), path, sig) })
+	}, 25*time.Second)
+	res.Add("validations", 1)
+	res.Add("single_file_target_validations", 1)
+	switch {
+	case !v.Returned:
+		res.Violate("validate-does-not-return:singlefile/"+s.Damage, desc, v.Report)
+	case panicked:
+		res.Violate("validate-panic:singlefile", desc, verr.Error(), stack)
+	case s.Consumer == "failfast" && verr == nil && deviates:
+		res.Violate("failfast-false-valid:singlefile", desc, "fail-fast Validate returned nil for a file that was cut")
+	case s.Consumer == "failfast" && verr != nil && !deviates:
+		res.Violate("failfast-rejects-valid", desc, verr.Error())
+	}
+	if s.Consumer == "failfast" && verr == nil {
+		res.Add("failfast_nil_verdicts_checked_against_truth", 1)
+	}
+	res.Feat = []string{fmt.Sprintf("singlefile|%s|%s", s.Damage, s.Consumer)}
+	return res
+}
+
 func c16Run(c lib.Case, env *lib.Env) lib.Result {
 	var s c16Spec
 	lib.ReadSpec(c, &s)
+	if s.Build == "singlefile" {
+		return c16SingleFile(c, s, env)
+	}
 	res := lib.Result{NonTrivial: true}
 	ref := c16Build(s.Build, s.Seed)
 	refDir := filepath.Join(env.Scratch, "ref")
@@ -234,6 +315,17 @@ func c16Run(c lib.Case, env *lib.Env) lib.Result {
 	}
 	rmDir := func(i int) { os.RemoveAll(filepath.Join(dir, filepath.FromSlash(sig.Container.Dirs[i].Path))) }
 	switch s.Damage {
+	case "respell": // the only damage: the symlink now spells its destination differently
+		lp := filepath.Join(dir, "lnk")
+		os.Remove(lp)
+		os.Symlink([]string{"./a.bin", "d/../a.bin", "a.bin/"}[c.ID%3], lp)
+	case "fifo": // a file of the build is now a named pipe nobody writes to
+		p := filepath.Join(dir, filepath.FromSlash(files[len(files)/2].Path))
+		os.Remove(p)
+		if err := syscall.Mkfifo(p, 0o644); err != nil {
+			res.Inconclusive("mkfifo: " + err.Error())
+			return res
+		}
 	case "short-signature":
 		sig = &pwr.SignatureInfo{Container: sig.Container, Hashes: sig.Hashes[:len(sig.Hashes)-1]}
 	case "short-signature+all":
@@ -272,8 +364,11 @@ func c16Run(c lib.Case, env *lib.Env) lib.Result {
 			}
 		}
 	}
-	got, _ := lib.ReadTree(dir)
-	deviates := len(lib.DiffBuilds(got, ref, true)) > 0
+	deviates := true
+	if s.Damage != "fifo" { // the tree oracle does not open special files
+		got, _ := lib.ReadTree(dir)
+		deviates = len(lib.DiffBuilds(got, ref, true)) > 0
+	}
 	// --- consumer
 	vctx := &pwr.ValidatorContext{Consumer: lib.Quiet()}
 	zipPath := filepath.Join(env.Scratch, "build.zip")
